@@ -287,14 +287,12 @@ def gen_value(rng, big_ok=False):
     return bytes((i * 7 + 1) & 0xFF for i in range(rng.choice([8170, 8192, 9000, 20000])))   # crosses the ofstream buffer
 
 
-def gen_history(rng, n_ops, cfg, free=False, allow_reopen=True, allow_big=False, universe=None):
-    """Returns (ops, meta).  `cfg` = dict(maxCache, maxLog, inline, now).  Every mutating op is followed by a `read`."""
-    keys = universe or gen_universe(rng, big=allow_big and rng.chance(1, 8))
+def gen_more(rng, n_ops, ref, keys, cfg, free=False, allow_reopen=True, allow_big=False, dist=None, read_every=True, clock=True):
+    """n_ops further operations (each mutating op followed by a `read`) continuing from reference state `ref` (updated in place)."""
+    ops = []
     outside = [b"zz-absent", b"a"]
-    ref = RefMap(cfg["now"])
-    ops = ["%s %d %d %d %d" % ("resetfree" if free else "reset", cfg["maxCache"], cfg["maxLog"], cfg["inline"], cfg["now"])]
     small_log = cfg["inline"] and cfg["maxLog"] < 100000
-    dist = {}
+    dist = dist if dist is not None else {}
 
     def emit(line):
         ops.append(line)
@@ -359,7 +357,7 @@ def gen_history(rng, n_ops, cfg, free=False, allow_reopen=True, allow_big=False,
             op = "compact"
         elif r < 825 and allow_reopen:
             op = "reopen"
-        elif r < 940:
+        elif r < 940 and clock:
             pe = pending()
             now = ref.now
             c = rng.below(10)
@@ -379,11 +377,21 @@ def gen_history(rng, n_ops, cfg, free=False, allow_reopen=True, allow_big=False,
         dist[op.split()[0]] = dist.get(op.split()[0], 0) + 1
         if free and rng.chance(1, 4):
             ops.append("sleep %d" % rng.choice([1, 2, 5, 12]))
-        if op.split()[0] != "get" or rng.chance(1, 3):
+        if read_every and (op.split()[0] != "get" or rng.chance(1, 3)):
             read_all()
+    return ops
+
+
+def gen_history(rng, n_ops, cfg, free=False, allow_reopen=True, allow_big=False, universe=None, read_every=True):
+    """Returns (ops, meta).  `cfg` = dict(maxCache, maxLog, inline, now).  Every mutating op is followed by a `read`."""
+    keys = universe or gen_universe(rng, big=allow_big and rng.chance(1, 8))
+    ref = RefMap(cfg["now"])
+    ops = ["%s %d %d %d %d" % ("resetfree" if free else "reset", cfg["maxCache"], cfg["maxLog"], cfg["inline"], cfg["now"])]
+    dist = {}
+    ops += gen_more(rng, n_ops, ref, keys, cfg, free=free, allow_reopen=allow_reopen, allow_big=allow_big, dist=dist, read_every=read_every)
     if allow_reopen:
-        emit("reopen")
-        read_all()
+        ops.append("reopen")
+        ops.append("read - %s" % " ".join(hexs(k) for k in keys if len(k) <= 64))
     ops.append("state")
     return ops, {"keys": keys, "dist": dist}
 
